@@ -186,6 +186,20 @@ def run(ctx):
             W = [1, 2, 3][j % 3]; N = 1 + j % 2; joint = j % 3 == 2
             series = e2e.make_data({"N": N, "lengths": [50, 44][: 1 + joint], "data_seed": 70 + j, "regimes": 2 + j % 2})
             runs_payload.append((series, W, 2 + j % 2, [3.0, 0.0, 12.0][j % 3], joint, 70 + j))
+        # ... and with switching costs at the edge of the float range - "never switch" (inf) as a number and at single pairs of a
+        # per-pair vector, and 1e300: whatever a mode does with them (labels, or an error), every mode must do the same
+        for j, bkind in enumerate(["inf", "inf-at-pairs", "1e300", "inf-at-pairs"][: ctx.budget(4, 4)]):
+            W = [2, 1, 3, 2][j]; N = 1 + j % 2
+            series = e2e.make_data({"N": N, "lengths": [48], "data_seed": 170 + j, "regimes": 2})
+            T_ = 48 - W + 1
+            if bkind == "inf":
+                bval = float("inf")
+            elif bkind == "1e300":
+                bval = 1e300
+            else:
+                bval = np.full(T_, 2.0)
+                bval[[5, T_ // 2, T_ - 3]] = np.inf
+            runs_payload.append((series, W, 2, bval, False, 170 + j))
         he = {m: core.start_worker(ctx, "vcheck.props.c15:e2e_labels", runs_payload, mode=m, tag="e2e") for m in ("interp", "jit", "nonumba")}
         re_ = {m: core.wait_worker(h) for m, h in he.items()}
         if all(r["ok"] for r in re_.values()):
@@ -194,7 +208,7 @@ def run(ctx):
                 a = re_["interp"]["result"][j]
                 for m in ("jit", "nonumba"):
                     if re_[m]["result"][j] != a:
-                        ctx.violation("monitor", "complete run returns different labels in %s mode" % m, {"run": {"W": runs_payload[j][1], "K": runs_payload[j][2], "beta": runs_payload[j][3], "joint": runs_payload[j][4], "seed": runs_payload[j][5]}})
+                        ctx.violation("monitor", "complete run returns different labels in %s mode" % m, {"run": {"W": runs_payload[j][1], "K": runs_payload[j][2], "beta": (runs_payload[j][3] if not isinstance(runs_payload[j][3], np.ndarray) else "vector with inf at some pairs"), "joint": runs_payload[j][4], "seed": runs_payload[j][5]}})
         else:
             for m, r in re_.items():
                 if not r["ok"]:
